@@ -30,6 +30,18 @@ class CplxOps (C R : Type) where
   im : C → R
   ofReal : R → C
 
+/-- a vector evaluated once and kept as an array (a numpy array instead of a closure).
+`(Memo.ofFn f).get = f` (`Lemmas/SuCoefCoupled.Memo.get_ofFn`): used only by the loops `runModal`,
+`runExp` so that they run in linear time. -/
+structure Memo (α : Type) (n : Nat) where
+  arr : Array α
+  size_eq : arr.size = n
+
+def Memo.ofFn {α : Type} {n : Nat} (f : Fin n → α) : Memo α n := ⟨Array.ofFn f, Array.size_ofFn⟩
+
+def Memo.get {α : Type} {n : Nat} (m : Memo α n) (i : Fin n) : α :=
+  m.arr[i.val]'(by rw [m.size_eq]; exact i.isLt)
+
 section linalg
 variable {α : Type} [Add α] [Mul α] [Zero α]
 
@@ -76,7 +88,9 @@ def stepModal (order1 : Bool) (c : Fin N → C × C × C) (y w0 w1 : Fin N → C
 def runModal (order1 : Bool) (c : Fin N → C × C × C) (y : Fin N → C) : List (Fin N → C) → List (Fin N → C)
   | [] => []
   | [_] => [y]
-  | w0 :: w1 :: ws => y :: runModal order1 c (stepModal order1 c y w0 w1) (w1 :: ws)
+  | w0 :: w1 :: ws =>
+    let m := Memo.ofFn (stepModal order1 c y w0 w1)
+    y :: runModal order1 c m.get (w1 :: ws)
 
 /-- complex `systype`: `d[kdof, 1:] = ur_d @ y[:, 1:]` -/
 def recoverCplx (U : Fin n → Fin N → C) (y : Fin N → C) : Fin n → C := matVec U y
@@ -136,7 +150,10 @@ def runExp (order1 : Bool) (c : ExpCoef α n) (dv : (Fin n → α) × (Fin n →
     List (Fin n → α) → List ((Fin n → α) × (Fin n → α))
   | [] => []
   | [_] => [dv]
-  | f0 :: f1 :: fs => dv :: runExp order1 c (expStep order1 c dv f0 f1) (f1 :: fs)
+  | f0 :: f1 :: fs =>
+    let md := Memo.ofFn (expStep order1 c dv f0 f1).1
+    let mv := Memo.ofFn (expStep order1 c dv f0 f1).2
+    dv :: runExp order1 c (md.get, mv.get) (f1 :: fs)
 
 end exp2
 
